@@ -265,6 +265,8 @@ class ZeroLinearOperator(LinearOperator):
         other: Union[Float[Tensor, "... #M #N"], Float[LinearOperator, "... #M #N"], float],
     ) -> Union[Float[LinearOperator, "... M N"], Float[Tensor, "... M N"]]:
         if torch.is_tensor(other) or isinstance(other, LinearOperator):
-            # refuse what (dense) addition refuses
-            torch.broadcast_shapes(self.shape, other.shape)
+            # refuse what (dense) addition refuses; adding zeros may still broadcast `other` to a larger batch shape
+            shape = torch.broadcast_shapes(self.shape, other.shape)
+            if shape != other.shape:
+                other = other.expand(*shape)
         return other
